@@ -628,7 +628,8 @@ def mc_phase(ctx, pid, insts, code_dependent):
     probes = []
     for i in insts:
         for b in i[4]:
-            probes.append(dict(i[1], bufmax=b) if b <= i[1]["bufmax"] else None)
+            # (the service builder wants history <= buffer; the queue capacity does not depend on the history)
+            probes.append(dict(i[1], bufmax=b, hist=min(i[1]["hist"], b)) if b <= i[1]["bufmax"] else None)
     real = [p for p in probes if p is not None]
     ns_all, cq_all = read_params(ctx, [i[1] for i in insts] + real, "mc")
     ns = ns_all[:len(insts)]
